@@ -1,1 +1,12 @@
 import SwcVerif.Props.C20
+#print axioms C20.consts_pinned
+#print axioms C20.save_puts_z_first
+#print axioms C20.axes_roundtrip
+#print axioms C20.axes_roundtrip_3d
+#print axioms C20.unknown_axis
+#print axioms C20.rescale_table
+#print axioms C20.uint_float_uint
+#print axioms C20.float_uint_float
+#print axioms C20.grid_covers
+#print axioms C20.bbox_contains
+#print axioms C20.swept_ends
